@@ -13,9 +13,9 @@
                       behaviour is judged by TLC on KSockPropTrace alone;
   3. code -> spec   - seeded random scenarios (2-3 hosts, both IP families, more
                       ports) recorded as NDJSON and validated by TLC against
-                      KSockPropTrace (verdict) and KSockTrace (fidelity); in the
-                      thorough tier also the real 16 384-port range driven through
-                      wrap-around and exhaustion.
+                      KSockPropTrace (verdict) and KSockTrace (fidelity); and the
+                      real 16 384-port range (all but 3-5 ports pre-bound) driven
+                      through wrap-around and exhaustion.
 """
 import glob
 import json
@@ -139,6 +139,11 @@ def gen_configs(tier):
         ("gen_wrap", base(Hosts={1}, EphHi=REAL_EPH[1], FillFrom=49155, Protos={"udp"},
                           BindAddrs={"wild", "a1"}, BindPorts={0, 49153}, MaxSocks=6, MaxOps=4,
                           SwAddrs={"a1"}, SwPorts={49152, 49153})),
+        # two free ports, every sequence of 5 port-0 binds / closes (all replayed): includes "range full, the
+        # socket bound last is closed, bind :0 again" = one free port right behind the cursor
+        ("gen_wrap2", base(Hosts={1}, EphHi=REAL_EPH[1], FillFrom=49154, Protos={"udp"},
+                           BindAddrs={"wild"}, BindPorts={0}, MaxSocks=6, MaxOps=5,
+                           SwAddrs={"a1"}, SwPorts={49152, 49153})),
     ]
     return cfgs
 
@@ -243,7 +248,7 @@ def run_(pid, tier, seed, replay=None):
         "completion); half-closed connections and lingering sockets are outside the alphabet; a connect to a free "
         "ephemeral port of the connecting host itself (self-connect) is outside the alphabet",
         "the ephemeral range of the real code is fixed (16 384 ports): the model uses 3 ports; wrap-around and "
-        "exhaustion on the real code are exercised in the thorough tier by pre-binding all but a few ports",
+        "exhaustion on the real code are exercised by pre-binding all but a few ports (a scripted prologue plus random operations in both tiers, TLC behaviours of the pre-filled range in the thorough tier)",
         "TLC results hold for the stated small constants; larger parameters are sampled by recorded-trace validation",
     ]
     vlib.build_harness(["ksock"])
@@ -349,10 +354,13 @@ def run_(pid, tier, seed, replay=None):
     if missing and not ck.violations:      # (a misbehaving stack may well make a class disappear)
         raise MachineryError(f"vacuity: random scenarios never recorded {missing}")
 
-    if tier == "thorough":
-        # the real allocator on the real range: wrap-around, exhaustion, reuse after close
+    if True:
+        # the real allocator on the real range (both tiers; thorough runs more random operations): all but 3-5
+        # ports pre-bound, then a fixed prologue - take every free port, free the one handed out last (the only
+        # free port then sits right behind the cursor) and bind :0 again, free the first one (the scan wraps
+        # around), exhaustion, reuse after a failed attempt - followed by random port-0 binds / closes / probes
         tpath = os.path.join(w, "exhaust.ndjson")
-        args = ["exhaust", f"seed={seed}"]
+        args = ["exhaust", f"seed={seed}", f"ops={8 if tier == 'quick' else 40}"]
         out = vlib.run_driver("ksock", args + [f"out={tpath}"])
         pr, ir = validate_trace(tpath, 2, T("exhaust"))
         ck.add_tlc(pr, "trace_prop_exhaust")
